@@ -230,3 +230,24 @@ PROPS = {
         level_note="Trusted: the Go race detector. The race half does not control the schedule (the simulator's own channels would create the happens-before edges that hide races); stated in DESIGN.md."),
         race=True),
 }
+
+# Vacuity guards added with the ninth wave of independently written changes (DESIGN.md 12.16): the dimensions that wave
+# asked for must actually occur in a quick batch, otherwise the batch says nothing about them.
+_W9_GUARDS = {
+    "C01": {"token-with-a-nonce-nobody-expects": 1000},
+    "C05": {"authorization-names-a-scope-twice": 250, "token-used-shortly-before-and-shortly-after-its-end": 40},
+    "C06": {"key-material-replaced-under-the-same-kid": 80},
+    "C07": {"authorization-names-a-scope-twice": 300, "token-used-shortly-before-and-shortly-after-its-end": 50, "schedule-strategy:pct": 250, "schedule-strategy:starve": 150},
+    "C08": {"authorization-names-a-scope-twice": 250, "jwt-access-token-presented-at-another-tenant": 250, "multi-tenant-steps": 4000, "token-used-shortly-before-and-shortly-after-its-end": 80,
+            "schedule-strategy:pct": 200, "schedule-strategy:starve": 100},
+    "C09": {"requests-after-the-fault-was-over": 1500},
+    "C11": {"registered-uri-repeats-a-parameter": 800},
+    "C13": {"schedule-strategy:pct": 2000, "schedule-strategy:starve": 1500, "schedule-strategy:uniform": 4000, "worlds-with-encryption-keys-under-the-signing-kids": 2000,
+            "worlds-with-one-kid-for-keys-of-different-types": 2000},
+    "C15": {"authorization-names-a-scope-twice": 300, "token-used-shortly-before-and-shortly-after-its-end": 90},
+    "C17": {"cookie-keys-of-the-other-application:last-byte-differs": 80, "cookie-keys-of-the-other-application:same-up-to-byte-32": 40, "cookie-keys-of-the-other-application:same-up-to-byte-64": 20,
+            "cookie-keys-of-the-other-application:suffix-appended": 80},
+    "C20": {"requests-of-sibling-instances-checked": 900},
+}
+for _p, _g in _W9_GUARDS.items():
+    PROPS[_p]["min_probes"]["quick"].update(_g)
